@@ -338,8 +338,8 @@ func runC10(c *Ctx) {
 			}
 			if !ok {
 				c.R.Violation("C10/concurrent", map[string]interface{}{
-					"what":   "a CPU driven concurrently with others on its own memory differs from its sequential run",
-					"round":  rd, "goroutines": g, "program": idx[i], "panic": fmt.Sprint(pan[i])})
+					"what":  "a CPU driven concurrently with others on its own memory differs from its sequential run",
+					"round": rd, "goroutines": g, "program": idx[i], "panic": fmt.Sprint(pan[i])})
 			}
 		}
 		gcounts[g]++
@@ -446,7 +446,7 @@ func runC10(c *Ctx) {
 			mu.Unlock()
 			if bad != "" {
 				c.R.Violation("C10/memory-type/"+name, map[string]interface{}{
-					"what": "the same program and bytes give a different outcome on " + name + " handed to the CPU directly: " + bad,
+					"what":    "the same program and bytes give a different outcome on " + name + " handed to the CPU directly: " + bad,
 					"program": pi, "code": HexBytes(cs.P.Code)})
 			}
 		}
